@@ -35,6 +35,10 @@ type Check struct {
 	Cases func(c *Ctx) int
 	// RunCase runs case i (a pure function of seed, tier and i).
 	RunCase func(c *Ctx, i int)
+	// Solo runs in one extra dedicated worker process (e.g. checks that
+	// register probe lints into the global registry and must not disturb
+	// the other workers' view of it).
+	Solo func(c *Ctx)
 	// Driver, when set, replaces the worker fan-out entirely (C10, C15 ...).
 	Driver func(c *Ctx)
 	// Finish runs in the driver on the merged report: observation gates
@@ -125,6 +129,7 @@ func Main() {
 	out := fs.String("out", "", "worker report file")
 	work := fs.String("work", "", "scratch dir")
 	replay := fs.String("replay", "", "replay file")
+	solo := fs.Bool("solo", false, "solo worker mode")
 	if len(os.Args) < 3 {
 		fmt.Fprintln(os.Stderr, "usage: vcheck <Cxx> <quick|thorough> [flags]")
 		os.Exit(2)
@@ -169,6 +174,10 @@ func Main() {
 		return
 	}
 	if *worker {
+		if *solo {
+			runSolo(ch, c, *out)
+			return
+		}
 		runWorker(ch, c, *out)
 		return
 	}
@@ -242,6 +251,30 @@ func runWorker(ch *Check, c *Ctx, out string) {
 		c.R.Count("cases_run", 1)
 	}
 	close(done)
+	if out != "" {
+		if err := c.R.WriteFile(out); err != nil {
+			fmt.Fprintln(os.Stderr, err)
+			os.Exit(2)
+		}
+	}
+}
+
+// runSolo runs the check's Solo part (its own process).
+func runSolo(ch *Check, c *Ctx, out string) {
+	c.cur.Store(-2)
+	go func() {
+		time.Sleep(20 * time.Minute)
+		fmt.Fprintln(os.Stderr, "VERIF-STALL solo part exceeded its watchdog")
+		_ = pprof.Lookup("goroutine").WriteTo(os.Stderr, 2)
+		os.Exit(97)
+	}()
+	if ch.Setup != nil {
+		if err := ch.Setup(c); err != nil {
+			fmt.Fprintf(os.Stderr, "setup: %v\n", err)
+			os.Exit(2)
+		}
+	}
+	ch.Solo(c)
 	if out != "" {
 		if err := c.R.WriteFile(out); err != nil {
 			fmt.Fprintln(os.Stderr, err)
@@ -326,6 +359,9 @@ func runDriver(ch *Check, c *Ctx) int {
 	unlisted := 0
 	var knownSeen []string
 	repDir := filepath.Join(c.Home, "replays", c.Prop)
+	if d := os.Getenv("VERIF_EVIDENCE_DIR"); d != "" {
+		repDir = filepath.Join(d, "replays", c.Prop)
+	}
 	for _, v := range merged.Violations {
 		if f, ok := known[v.Key]; ok {
 			fmt.Printf("KNOWN-FINDING: property=%s %s (key=%s, seen %d times this run)\n", c.Prop, f.Text, v.Key, v.Count)
@@ -404,20 +440,27 @@ func fanOut(ch *Check, c *Ctx, work string, procs int, merged *Report) []crash {
 		shard int
 		err   error
 	}
-	resc := make(chan res, procs)
-	for i := 0; i < procs; i++ {
+	nw := procs
+	if ch.Solo != nil {
+		nw = procs + 1
+	}
+	resc := make(chan res, nw)
+	for i := 0; i < nw; i++ {
 		go func(i int) {
 			out := filepath.Join(work, fmt.Sprintf("w%d.json", i))
 			logf, _ := os.Create(filepath.Join(work, fmt.Sprintf("w%d.log", i)))
 			defer logf.Close()
 			cmd := exec.CommandContext(ctx, exe, c.Prop, c.Tier, "-worker", "-shard", strconv.Itoa(i), "-of", strconv.Itoa(procs), "-out", out, "-work", work)
+			if i == procs {
+				cmd.Args = append(cmd.Args, "-solo")
+			}
 			cmd.Stdout, cmd.Stderr = logf, logf
 			cmd.Env = append(os.Environ(), "GOMAXPROCS=2")
 			resc <- res{i, cmd.Run()}
 		}(i)
 	}
 	var crashes []crash
-	for k := 0; k < procs; k++ {
+	for k := 0; k < nw; k++ {
 		r := <-resc
 		out := filepath.Join(work, fmt.Sprintf("w%d.json", r.shard))
 		if r.err == nil {
